@@ -60,6 +60,9 @@ def decorate(b, rng, claims=True, finality=False, storefaults=False, l2reorgs=Fa
             if finality and fin < nl1 and rng.random() < 0.3:
                 fin += 1
                 steps.append(dict(a="finalize", fin=fin))
+        if s["a"] == "tick" and cfg.get("mode", "pp") != "fep" and rng.random() < 0.15:
+            # the L2 syncer stores a new block (one exit) while the node reads the L2 bridge store for this tick
+            s["midblock"] = rng.randrange(1, 120)
         if s["a"] == "tick" and storefaults and s.get("o") == "ok" and rng.random() < 0.5:
             s["storefail"] = rng.choice([1, 2])             # the first 1-2 save attempts fail as a whole; the save is retried
         if s["a"] == "tick" and storefaults and s.get("o") == "crash_after_submit" and rng.random() < 0.5:
